@@ -3,6 +3,7 @@
 package weshnet
 
 import (
+	"time"
 	"bytes"
 	crand "crypto/rand"
 	"fmt"
@@ -15,6 +16,7 @@ import (
 
 	"berty.tech/weshnet/v2/internal/vacct"
 	"berty.tech/weshnet/v2/pkg/protocoltypes"
+	"berty.tech/weshnet/v2/pkg/secretstore"
 )
 
 // C07: contacts follow the documented lifecycle (DESIGN.md appendix A).
@@ -93,6 +95,28 @@ type c07World struct {
 	own      crypto.PubKey
 	contacts []*c07Contact
 	trace    []string
+	svc      *service // when set, the operations that have an RPC go through the protocol service
+	cleanup  func()
+}
+
+// c07NewServiceWorld: the account group of a running protocol service; enqueue / discard / accept / block / unblock go
+// through ContactRequestSend / ContactRequestDiscard / ContactRequestAccept / ContactBlock / ContactUnblock, the two
+// operations without an RPC (mark sent, incoming received) are performed on the account store as the contact request
+// manager does.
+func c07NewServiceWorld(t *testing.T) *c07World {
+	tp, cleanup := NewTestingProtocol(vCtx, t, nil, nil)
+	svc := tp.Service.(*service)
+	gc := svc.getAccountGroup()
+	// the service announces its device and secrets in the account group on its own: wait until that is over
+	last, since := -1, time.Now()
+	for deadline := time.Now().Add(15 * time.Second); time.Now().Before(deadline); time.Sleep(20 * time.Millisecond) {
+		if l := gc.MetadataStore().OpLog().Len(); l != last {
+			last, since = l, time.Now()
+		} else if time.Since(since) > 400*time.Millisecond {
+			break
+		}
+	}
+	return &c07World{t: t, g: gc.Group(), gc: gc, own: gc.MemberPubKey(), svc: svc, cleanup: cleanup}
 }
 
 func c07NewWorld(t *testing.T) *c07World {
@@ -102,7 +126,18 @@ func c07NewWorld(t *testing.T) *c07World {
 	return &c07World{t: t, w: w, g: g, gc: gc, own: gc.MemberPubKey()}
 }
 
+func (x *c07World) secrets() secretstore.SecretStore {
+	if x.svc != nil {
+		return x.svc.secretStore
+	}
+	return x.w.ss
+}
+
 func (x *c07World) close() {
+	if x.svc != nil {
+		x.cleanup()
+		return
+	}
 	_ = x.gc.Close()
 	x.w.close()
 }
@@ -156,7 +191,25 @@ func (x *c07World) apply(op c07Op) (string, string) {
 		wellFormed = false
 	}
 	var err error
-	switch op.Kind {
+	rawPK := vRawPK(pk)
+	switch {
+	case x.svc != nil && op.Kind == "enqueue":
+		_, err = x.svc.ContactRequestSend(vCtx, &protocoltypes.ContactRequestSend_Request{Contact: sc, OwnMetadata: []byte("own-meta")})
+	case x.svc != nil && op.Kind == "discard":
+		_, err = x.svc.ContactRequestDiscard(vCtx, &protocoltypes.ContactRequestDiscard_Request{ContactPk: rawPK})
+	case x.svc != nil && op.Kind == "accept":
+		_, err = x.svc.ContactRequestAccept(vCtx, &protocoltypes.ContactRequestAccept_Request{ContactPk: rawPK})
+	case x.svc != nil && op.Kind == "block":
+		_, err = x.svc.ContactBlock(vCtx, &protocoltypes.ContactBlock_Request{ContactPk: rawPK})
+	case x.svc != nil && op.Kind == "unblock":
+		_, err = x.svc.ContactUnblock(vCtx, &protocoltypes.ContactUnblock_Request{ContactPk: rawPK})
+	}
+	viaRPC := x.svc != nil && (op.Kind == "enqueue" || op.Kind == "discard" || op.Kind == "accept" || op.Kind == "block" || op.Kind == "unblock")
+	kind := op.Kind
+	if viaRPC {
+		kind = "(rpc)"
+	}
+	switch kind {
 	case "enqueue":
 		_, err = m.ContactRequestOutgoingEnqueue(vCtx, sc, []byte("own-meta"))
 	case "sent":
@@ -273,7 +326,7 @@ func (x *c07World) compare(gc *GroupContext, where string) (string, string) {
 				return "by-status-partition/" + where, fmt.Sprintf("contact in state %s listed under %s = %v", c07StateNames[c.state], c07StateNames[si], in)
 			}
 		}
-		cg, err := x.w.ss.GetGroupForContact(c.pk)
+		cg, err := x.secrets().GetGroupForContact(c.pk)
 		if err == nil {
 			sc := m.GetContactFromGroupPK(cg.PublicKey)
 			if sc == nil || !bytes.Equal(sc.Pk, c.raw) {
@@ -514,5 +567,40 @@ func TestVerif_C07_Random(t *testing.T) {
 		}
 		acct.Case(refused && implicit && backfill, strings.Join(names, ","), func() any { return map[string]any{"kind": "random", "sequence": names} },
 			"random", lbl07(refused, "seq/refusal"), lbl07(implicit, "seq/implicit-path"), lbl07(backfill, "seq/backfill"), lbl07(malformed, "seq/malformed-input"), lbl07(reopened, "seq/reopen-mid-sequence"))
+	})
+}
+
+// the same lifecycle through the protocol service (the RPCs an application uses); state is read from the account store
+func TestVerif_C07_Service(t *testing.T) {
+	acct := vacct.Get("C07")
+	vacct.RapidCheck(t, vacct.N(6, 400), func(rt *rapid.T) {
+		x := c07NewServiceWorld(t)
+		defer x.close()
+		x.newContact()
+		x.newContact()
+		n := rapid.IntRange(3, 25).Draw(rt, "n")
+		var names []string
+		sameSeedReEnqueue := false
+		for i := 0; i < n; i++ {
+			op := c07Op{Kind: rapid.SampledFrom([]string{"enqueue", "enqueue", "enqueue", "sent", "incoming", "discard", "accept", "block", "unblock"}).Draw(rt, "kind"),
+				C: rapid.IntRange(0, 1).Draw(rt, "c"), Meta: rapid.IntRange(0, 2).Draw(rt, "meta"), SeedV: rapid.SampledFrom([]int{0, 0, 0, 1}).Draw(rt, "seedv")}
+			if rapid.IntRange(0, 7).Draw(rt, "bad?") == 0 {
+				op.Bad = rapid.SampledFrom([]string{"seed-missing", "seed-31", "pk-31", "own-pk"}).Draw(rt, "bad")
+			}
+			if op.Kind == "enqueue" && op.Bad == "" && x.contacts[op.C].state == c07T {
+				sameSeedReEnqueue = true
+			}
+			names = append(names, op.String())
+			if id, msg := x.apply(op); id != "" {
+				c07Fail(acct, "TestVerif_C07_Service", x, "service/"+id, msg)
+				rt.Fatalf("C07 service/%s: %s\n%s", id, msg, strings.Join(x.trace, "\n"))
+			}
+			if id, msg := x.compare(x.gc, "service"); id != "" {
+				c07Fail(acct, "TestVerif_C07_Service", x, "service/"+id, msg)
+				rt.Fatalf("C07 service/%s: %s\n%s", id, msg, strings.Join(x.trace, "\n"))
+			}
+		}
+		acct.Case(sameSeedReEnqueue, "svc|"+strings.Join(names, ","), func() any { return map[string]any{"kind": "service-sequence", "sequence": names} },
+			"service", lbl07(sameSeedReEnqueue, "service/re-enqueue-while-to-request"))
 	})
 }
